@@ -130,7 +130,11 @@ func VerifRdChunk() {
 		src.chunk = 1
 	case 1:
 		p := verifrt.Int()
-		verifrt.Assume(p > 0 && p < len(c.stream))
+		lo := c.symStart/8 - verifrt.Param("SPLITBACK")
+		if lo < 1 {
+			lo = 1
+		}
+		verifrt.Assume(p >= lo && p < len(c.stream))
 		src.split = verifrt.Concretize(p)
 	case 2:
 		src.withLast = true
